@@ -54,6 +54,13 @@ PROPS = {
         explanation="Theorems: Node/Edge/NodeList equality are equivalence relations; equality <-> checksum equality under injectivity of SHA-256 (premise); invariance under every permutation of set-valued attributes, edge targets, nodes, edges, roots (via: insertion sort is canonical on multisets, with transitivity of the byte order proved); every schema field contributes to the flat string; scalar attributes render injectively; external-reference hashes covered. The unrestricted 'equal only if every attribute equal' is refuted by vm_compute witnesses (K1 separator collisions, K6 shadowed duplicate) and kept visible. Tie: the model's flat strings are compared byte for byte with the implementation's (verif export) on random nodes/edges/persons/external references; oracle mutates one attribute at a time by reflection over the schema.",
         assumptions=["modelled: flatString of Node/Edge/Person/ExternalReference, NodeList.Equal (Model/Flat.v); SHA-256 is a Section variable assumed injective where a theorem says so", "render-level injectivity for collection-valued attributes is NOT proved (false without separator-freeness: K1); covered by the single-attribute mutation oracle only"],
     ),
+    "C14": dict(
+        props_v="Props/C14.v",
+        corr_v=["Corr/CheckC14.v"],
+        n_quick=110, n_thorough=3000,
+        explanation="Theorems (all ordered pairs of nodes whose maps have unique keys, every generated schema field): Diff of a node with itself is nil; Diff is nil exactly when every attribute has the same content (sets for lists/maps, seconds for dates); each differing attribute contributes exactly one to DiffCount; applying the reported additions and removals to the first node rebuilds the second node's attributes (explicit apply_diff). Tie: Node.Diff observed (Added, Removed, DiffCount) on random pairs vs Model/Diff.v; oracle recomputes sameness, count and reconstruction by reflection over the schema.",
+        assumptions=["modelled: pkg/sbom/diff.go (Model/Diff.v); persons and external references are identified by their flat strings, as in the code", "map-valued attributes are association lists with unique keys (premise maps_unique; true of every Go map)"],
+    ),
 }
 
 NOT_APPLICABLE = {}
